@@ -48,8 +48,11 @@ def build(o):
 
 def prime(x):
     """queries that make the library compute (and possibly cache) derived state of x: hash, ==, edges, measures"""
+    probe = Line(Point(0.25, -0.5, 0.75), Vector(1.0, 2.0, 3.0))
     for f in (lambda: hash(x), lambda: x == x, lambda: x.segments(), lambda: x.length(), lambda: x.area(), lambda: x.volume(),
-              lambda: x.points[0] in x, lambda: repr(x)):
+              lambda: x.points[0] in x, lambda: repr(x), lambda: x.general_form(), lambda: x.parametric(), lambda: x.point_normal(),
+              lambda: intersection(probe, x), lambda: intersection(x, Plane(Point(0.5, 0.25, -1.0), Vector(2.0, -1.0, 1.0))),
+              lambda: distance(Point(0.5, 1.5, -2.5), x), lambda: Point(0.5, 1.5, -2.5) in x):
         try:
             f()
         except Exception:
@@ -65,6 +68,49 @@ def build_via_move(o, t, primed=True):
         prime(x)
     x.move(Vc(t))
     return x
+
+
+def build_with_decoy(o, t):
+    """the same object, built from Point instances that ALSO serve to build unrelated objects (decoys) which are then
+    moved in place: a constructor that keeps references to its arguments instead of copying them lets the decoy drag the
+    object along (or lets the object's construction corrupt the caller's Points)."""
+    k = o[0]
+    far = Pt((41.0, -37.0, 29.0))
+    decoys = []
+    if k == 'P':
+        x = Pt(o[1])
+        decoys += _try(lambda: Segment(x, far))
+    elif k == 'S':
+        p, q = Pt(o[1]), Pt(o[2])
+        x = Segment(p, q)
+        decoys += _try(lambda: Segment(p, far)) + _try(lambda: HalfLine(q, far))
+    elif k in ('L', 'H', 'PL'):
+        p = Pt(o[1])
+        x = {'L': Line, 'H': HalfLine, 'PL': Plane}[k](p, Vc(o[2]))
+        decoys += _try(lambda: Segment(p, far))
+    elif k == 'G':
+        pts = [Pt(q) for q in o[1]]
+        x = ConvexPolygon(tuple(pts))
+        decoys += _try(lambda: Segment(pts[0], far))
+        if len(pts) > 2:
+            decoys += _try(lambda: Segment(pts[-1], pts[1]))
+    elif k == 'B':
+        polys = [ConvexPolygon(tuple(Pt(q) for q in f)) for f in o[1]]
+        x = ConvexPolyhedron(tuple(polys))
+        decoys.append(polys[0])
+        decoys.append(polys[-1])
+    else:
+        return build(o)
+    for d in decoys:
+        d.move(Vc(t))
+    return x
+
+
+def _try(f):
+    try:
+        return [f()]
+    except Exception:
+        return []
 
 
 def ex(x):
